@@ -414,3 +414,67 @@ func H_C02_float_keys() {
 type vW13 struct {
 	M map[float64]vIn `valid:"exist"`
 }
+
+// ---- round 4 ----
+
+// one sub-object reachable through several fields / elements / map values (the same pointer): it is a
+// rule instance under each of its paths, so its violations are reported once per path
+type vW20 struct {
+	P []*vIn          `valid:"exist"`
+	A *vIn            `valid:"exist"`
+	B *vIn            `valid:"required"`
+	M map[string]*vIn `valid:"exist"`
+	C **vIn           `valid:"exist"`
+}
+
+func H_C02_shared_subobject() {
+	in := &vIn{N: vStr("N"), K: vndInt("K")}
+	other := &vIn{N: vStr("oN"), K: vndInt("oK")}
+	o := &vW20{}
+	switch vndChoice("shape", 5) {
+	case 0:
+		o.A, o.B = in, in
+	case 1:
+		o.P = []*vIn{in, in}
+	case 2:
+		o.P = []*vIn{in, other, in}
+		o.B = other
+	case 3:
+		o.A = in
+		o.M = map[string]*vIn{"k": in}
+		o.C = &in
+	case 4:
+		o.A, o.B = in, other
+		o.C = &o.A
+	}
+	vRun("C02 shared sub-object", o)
+}
+
+// the same pointer twice in a top-level slice, and the object itself inside one of its own collections' siblings
+func H_C02_shared_top() {
+	in := &vIn{N: vStr("N"), K: vndInt("K")}
+	switch vndChoice("shape", 2) {
+	case 0:
+		vRun("C02 []*T with one pointer twice", []*vIn{in, in})
+	case 1:
+		vRun("C02 [2]*T with one pointer twice", [2]*vIn{in, in})
+	}
+}
+
+// Map over a slice of maps with cross-key groups and ordinary rules: every map is an object of its own
+// (one clause per violated group per map, none for a satisfied one), field clauses first
+func H_C02_map_slice_groups() {
+	rm := NewRule().Set("a,b", "either=1").Set("c,d", "botheq=2").Set("a", "r1")
+	m := []map[string]string{
+		{"a": vStr("a0"), "b": vStr("b0"), "c": vStr("c0"), "d": vStr("d0")},
+		{"a": vStr("a1"), "b": vStr("b1"), "c": vStr("c1"), "d": vStr("d1")},
+	}
+	vULog = nil
+	err := MapFn(m, rm, Name2FnMap{"r1": vURule("r1")})
+	r := vNewRef()
+	r.local = map[string]bool{"r1": true}
+	vRefMap(r, m, rm)
+	vCheckUnordered("C02 Map([]map) with groups", err, r)
+	vAssert((err == nil) == (vCountClauses(err) == 0), "C02 Map([]map) with groups: nil iff no clause")
+	vReach("end")
+}
